@@ -40,6 +40,10 @@ NextWire ==
     /\ mode = "wire"
     /\ UNCHANGED <<mode, base, seq>>
     /\ \/ \E v \in Vals, n \in Sizes : Len(stream) < MaxRecs /\ Write(<<v>>, n, total) /\ UNCHANGED readlog
+       \/ \E v \in Vals, n \in Sizes, p \in 0..3 :
+            /\ Len(stream) < MaxRecs /\ p <= n
+            /\ WriteThrough(<<v>>, p = n, p, n, p, [i \in 1..p |-> i], [i \in 1..p |-> i], total)
+            /\ UNCHANGED readlog
        \/ HasNext /\ Read(stream[cur].v, stream[cur].n, off, FALSE) /\ readlog' = Append(readlog, stream[cur].v)
        \/ HasNext /\ ReadVal(stream[cur].v, off, FALSE) /\ readlog' = Append(readlog, stream[cur].v)
        \/ ReadRefused /\ UNCHANGED readlog
@@ -95,7 +99,15 @@ SumN(k) == IF k = 0 THEN 0 ELSE stream[k].n + SumN(k - 1)
 (* reads return the writes in order *)
 ReadsReturnWritesInOrder == readlog = [i \in 1..(cur - 1) |-> stream[i].v]
 (* the cursor moved by exactly the bytes of the records read *)
-OffsetIsSum == off = SumN(cur - 1) /\ total = SumN(Len(stream))
+OffsetIsSum == off = SumN(cur - 1) /\ total >= SumN(Len(stream))
+(* a write through a short sink: only a complete, correctly counted prefix-equal write is Ok *)
+ThroughAnswers ==
+    mode = "wire" =>
+        \A ok \in BOOLEAN, n \in 0..3, sl \in 0..3 :
+            ENABLED WriteThrough(<<"a">>, ok, n, 2, sl, [i \in 1..(IF sl < 2 THEN sl ELSE 2) |-> i], [i \in 1..sl |-> i], total) =>
+                /\ sl <= 2
+                /\ ok => (sl = 2 /\ n = 2)
+                /\ ~ok => n <= sl
 
 (* exactly one answer is accepted for a read *)
 OneAnswer ==
